@@ -225,6 +225,7 @@ func (s Shape) S(slices ...Slice) (retVal Shape, err error) {
 
 	retVal = s.Clone()
 
+	single := true // does the slice pick exactly one element?
 	for d, size := range s {
 		var sl Slice // default is a nil Slice
 		if d <= len(slices)-1 {
@@ -236,8 +237,15 @@ func (s Shape) S(slices ...Slice) (retVal Shape, err error) {
 			return
 		}
 
+		if end-start != 1 {
+			single = false
+		}
+
 		if step > 0 {
-			retVal[d] = (end - start) / step
+			// same rounding as AP.S
+			if retVal[d] = (end - start) / step; (end-start)%step > 0 && d > 0 {
+				retVal[d]++
+			}
 
 			//fix
 			if retVal[d] <= 0 {
@@ -247,6 +255,12 @@ func (s Shape) S(slices ...Slice) (retVal Shape, err error) {
 			retVal[d] = (end - start)
 		}
 
+	}
+
+	// a slice that picks exactly one element is a scalar, as in AP.S
+	if single {
+		ReturnInts(retVal)
+		return ScalarShape(), nil
 	}
 
 	// drop any dimension with size 1, except the last dimension
